@@ -56,3 +56,10 @@ VARIANTS += [
  dict(id='c18-p5ref3-with-manager-sign', prop='C18', base='P5-REF3', expect='C18-D9', file='scared/preprocesses/first_order.py',
       old="        return traces - mean\n", new="        return traces + mean\n"),
 ]
+
+VARIANTS += [
+ dict(id='c18-p5ref1-plan-triangular-from-next', prop='C18', base='P5-REF1', expect='C18-D8', file='scared/preprocesses/high_order/_base.py',
+      old="            spans = [(i, width_2) for i in range(width_1)]\n", new="            spans = [(i + 1, width_2) for i in range(width_1)]\n", allow_undecided=True),
+ dict(id='c18-p5ref1-plan-operands-swapped', prop='C18', base='P5-REF1', expect='C18', file='scared/preprocesses/high_order/_base.py',
+      old="self._operation(chunk_1[:, i], chunk_2[:, first: last].T).T", new="self._operation(chunk_2[:, first: last].T, chunk_1[:, i]).T"),
+]
